@@ -457,7 +457,7 @@ class PossibleFragmentSpreadsChecker(ValidationVisitor):
     def enter_fragment_spread(self, node):
         name = node.name.value
         frag_type = self._fragment_types.get(name, None)
-        parent_type = self.type_info.type
+        parent_type = self.type_info.parent_type
 
         if (
             isinstance(frag_type, GraphQLCompositeType)
